@@ -1497,4 +1497,36 @@ theorem insertPhis_rows (n : Nat) (allW : List Var) (df : Nat → List Nat) (wri
       obtain ⟨r1, _⟩ := frontierFold_count n allW (written cur ++ P cur) hW (df cur) P wl.dropLast (hdf cur) h
       exact ih _ _ Pf r1 hp
 
+-- ---------------------------------------------------------------------------- part 9: scopes
+
+theorem frames_get_add (fs : Frames) (hne : fs ≠ []) (v : Var) (n : Nat) : (fs.add v n).get = (VMap.set fs.get v n) := by
+  cases fs with
+  | nil => exact absurd rfl hne
+  | cons f rest =>
+    funext w
+    simp only [Frames.add, Frames.get, List.find?_cons, VMap.set]
+    by_cases hw : w = v
+    · subst hw; simp
+    · have : (v == w) = false := by simpa using (fun h => hw h.symm)
+      simp [this, hw]
+
+/-- the operations of a subtree only touch the innermost block: the blocks below are unchanged, and the stack stays non-empty -/
+theorem scopeOps_tail {f : Frames → Frames} (h : ScopeOps f) : ∀ (top : List (Var × Nat)) (rest : Frames),
+    ∃ top', f (top :: rest) = top' :: rest := by
+  induction h with
+  | none => intro top rest; exact ⟨top, rfl⟩
+  | add v n _ ih => intro top rest; exact ih ((v, n) :: top) rest
+  | child _ _ ihf ihg =>
+    intro top rest
+    obtain ⟨t1, h1⟩ := ihf [] (top :: rest)
+    simp only [Frames.push, Frames.pop, h1, List.tail_cons]
+    exact ihg top rest
+
+/-- **leaving a scope restores the environment**: after `add_variable_scope`, any visit of a subtree and
+    `remove_variable_scope`, every lookup gives what it gave before — the version map a child starts from is the map at the end
+    of its parent, whatever its elder siblings did (what `SsaWalk.walk` models by handing the map down) -/
+theorem scope_restores {f : Frames → Frames} (h : ScopeOps f) (fs : Frames) : (f fs.push).pop = fs := by
+  obtain ⟨t, ht⟩ := scopeOps_tail h [] fs
+  simp only [Frames.push, Frames.pop, ht, List.tail_cons]
+
 end Circomspect.SsaWalk
